@@ -514,6 +514,8 @@ def opCmp (f : Fam) (kind : String) (a b : Text) (out : String) : String × Stri
     if !valid f ka a || !valid f kb b then
       (if out == "invalid" then "skip" else "FAIL accepted an argument outside the RFC production")
     else if out == "PANIC" then "FAIL comparison panicked"
+    else if out.startsWith "ALIAS-DIFFERS" then
+      "FAIL the outcome of a comparison depends on where the operands are stored (the same texts as views into one buffer compare differently)"
     else
       let want := Oracle.specEq kind a b
       match out.splitOn " " with
